@@ -44,9 +44,9 @@ class BytesScenario(explore.Scenario):
         if init == "empty":
             size, data = 0, b""
         elif init == "bss":
-            size, data = 4, b""
+            size, data = len(BASE), b""
         else:
-            size, data = 4, BASE
+            size, data = len(BASE), BASE
         # B and its neighbour B2 are built from ONE caller-owned bytearray:
         # nothing done to B may show in B2 (or in the caller's object)
         shared = bytearray(data)
